@@ -23,7 +23,8 @@ class SubCtx:
 def image_slices(ctx, pid, variants=genslice.VARIANTS, want=None, n_quick=8, n_thorough=40, dynamic=True):
     sub = SubCtx(ctx, PROP_SALT[pid])
     big = (not ctx.quick()) or ctx.deep
-    g = genslice.run_gen_slice(sub, n_cfg=(n_thorough if big else n_quick), variants=variants, label="generator")
+    n_cfg = n_thorough if not ctx.quick() else (14 if ctx.deep else n_quick)   # deep = search after a broken tie
+    g = genslice.run_gen_slice(sub, n_cfg=n_cfg, variants=variants, label="generator")
     jobs, results = g.pop("jobs"), g.pop("results")
     violations, judged, skipped = [], 0, 0
     dist = {"judged_images": 0, "executed_steps": 0, "raised": 0}
